@@ -414,6 +414,14 @@ class HdlcFrameReader(MeterReaderBase[HdlcFrame]):
 
         else:
             self._append_to_frame(self.FLAG_SEQUENCE)
+            if len(self._frame) > HdlcFrame.MAX_FRAME_LENGTH:
+                # The length field can never be matched. Without this a run of flag
+                # sequences (time fill) would be collected as frame data without end.
+                _LOGGER.debug(
+                    "Max frame length reached. Discard frame: %s",
+                    self._raw_frame_data.hex(),
+                )
+                self._goto_hunt_mode()
 
         return frame_complete
 
